@@ -39,6 +39,13 @@ def analyze(text):
             toks = list(tokenize.generate_tokens(io.StringIO(text, newline="\n").readline))
     except Exception as e:               # noqa: BLE001 - TokenError, SyntaxError, and CPython 3.12 SystemError on odd f-strings
         return None, "tokenize:" + type(e).__name__
+    # domain: a numeric literal immediately followed by a name or keyword (`3else`, `1if x`, `0x1for y`) still tokenizes in
+    # 3.12 but is deprecated (SyntaxWarning "invalid ... literal", to become a syntax error): such texts are not counted as
+    # valid source text; they stay in the malformed stream (model vs rope only). Generator, oracle and shrinker all go
+    # through this predicate.
+    for t1, t2 in zip(toks, toks[1:]):
+        if t1.type == T.NUMBER and t2.type == T.NAME and t1.end == t2.start:
+            return None, "number-glued-to-name"
     starts = [0]
     for i, c in enumerate(text):
         if c == "\n":
